@@ -101,6 +101,25 @@ def run(out, tier, seed):
             for kind in sinks:
                 evs = [{"op": "sink", "kind": kind, "content": []}] + [{"op": "parse", "fmt": fm, "docname": dn, "doc": DOCS[dn], "text": text_of(fm, dn, DOCS[dn])}] * 2
                 jobs.append({"cfg": {}, "events": [dict(e) for e in evs]})
+    # the same document (and a pair of documents) loaded twice by every route that gives the document an identity - a path, a file object
+    # with a public id, publicID= - and with the global random generator re-seeded between the loads
+    HOWS = ["publicID", "path", "file", "data"]
+    for di, dn in enumerate(names):
+        for fi, fm in enumerate(TRIPLE_FMTS + QUAD_FMTS):
+            for hi, how in enumerate(HOWS):
+                if quick and (di + fi + hi) % 2:
+                    continue
+                kind = sinks[1 + (di + fi + hi) % 3] if fm in QUAD_FMTS else sinks[(di + fi + hi) % 4]
+                other = names[(di + 1) % len(names)]
+                doc, doc2 = DOCS[dn], DOCS[other]
+                if fm == "trix":
+                    # TriX has no default graph (an unnamed <graph> is an anonymous graph): use a named one instead
+                    doc = [q[:3] + [I(EX + "g0") if q[3]["k"] == "default" else q[3]] for q in doc]
+                    doc2 = [q[:3] + [I(EX + "g0") if q[3]["k"] == "default" else q[3]] for q in doc2]
+                text = docwriters.write(fm, doc) if fm in QUAD_FMTS else text_of(fm, dn, doc)
+                text2 = docwriters.write(fm, doc2) if fm in QUAD_FMTS else text_of(fm, other, doc2)
+                mk = lambda d, t, n: {"op": "parse", "fmt": fm, "docname": n, "doc": d, "text": t, "how": how, "reseed": 7 if (di + hi) % 2 == 0 else 0}
+                jobs.append({"cfg": {}, "events": [{"op": "sink", "kind": kind, "content": []}, mk(doc, text, dn), mk(doc, text, dn), mk(doc2, text2, other), mk(doc, text, dn)]})
     qnames = list(QDOCS)
     for a, b in itertools.product(qnames + names[:2], repeat=2):
         for fi, fm in enumerate(QUAD_FMTS):
